@@ -220,7 +220,7 @@ def run_pipes(radio, agg):
                     agg.add("R03.5", f_open, "%s after the call" % regname(0x0A + p), got == want, "%s: register bytes %s" % (label, got))
     f_tx = radio.prog.method(radio.cls, "open_tx_pipe")
     for addr in ADDRS + [b"123456"]:
-        for aa in (0x3F, 0x3E):
+        for aa in (0x3F, 0x3E, 0x02, 0x00):
             n += 1
             label = "open_tx_pipe(%r) EN_AA=0x%02X" % (bytes(addr), aa)
             st = radio.fresh({contract.EN_AA: aa})
@@ -230,6 +230,11 @@ def run_pipes(radio, agg):
                     check_raise(radio, agg, f_tx, label, out)
                     continue
                 check_exit(radio, agg, f_tx, label, out, None, {contract.EN_AA: contract.const_bits(aa)})
+                if not aa & 1:
+                    # without auto-ack on pipe 0 the pipe-0 RX address does not belong to open_tx_pipe()
+                    cur0 = out.state.extra["regs"].get(0x0A)
+                    same0 = cur0 is None or (hasattr(cur0, "key") and cur0.key() == radio.inv.extra["regs"][0x0A].key())
+                    agg.add("R03.2", f_tx, "RX_ADDR_P0 is not owned by open_tx_pipe() unless pipe 0 auto-acknowledges", same0, "%s: RX_ADDR_P0 becomes %r" % (label, cur0))
                 got = radio.bytes_of(out.state, out.state.extra["regs"].get(0x10))
                 want = tuple(Const(b).key() for b in bytes(addr)[:5])
                 agg.add("R03.5", f_tx, "TX_ADDR after the call", got == want, "%s: register bytes %s" % (label, got))
